@@ -13,9 +13,10 @@ class FakeTask:
     def __init__(self, bus, msg, period, modifiable):
         self.bus = bus
         self.msg = msg
-        # a task that cannot modify its data in place has handed the frame over at creation
-        # (hardware / kernel cyclic transmission): later changes of the message object are not seen
-        self.frozen = None if modifiable else bytes(msg.data)
+        # the frame is handed over when the task is created and whenever modify_data() is called
+        # (hardware / kernel cyclic transmission copies it): changes of the message object made at any
+        # other time are not seen by the bus
+        self.frozen = bytes(msg.data)
         self.period = period
         self.running = True
         self.tid = bus._next_tid
@@ -29,6 +30,7 @@ class FakeTask:
 
     def _modify_data(self, msg):
         self.msg = msg
+        self.frozen = bytes(msg.data)
 
     def project(self):
         m = self.msg
